@@ -374,7 +374,7 @@ def modelable(case):
     for d in case['defs']:
         for c in d['children']:
             p = c.get('prefix')
-            if p is not None and p not in SI_PREFIX and not _INT.fullmatch(p):
+            if p is not None and p.strip() not in SI_PREFIX and not _INT.fullmatch(p):
                 return False
             for k in ('exponent', 'multiplier'):
                 if c.get(k) is not None and c[k] != c[k].strip():
@@ -386,8 +386,8 @@ def child_sexp(c):
     p = c.get('prefix')
     if p is None:
         ps = []
-    elif p in SI_PREFIX:
-        ps = [0, p]
+    elif p.strip() in SI_PREFIX:     # the schema's prefix names are tokens: surrounding white space is not significant
+        ps = [0, p.strip()]
     else:
         ps = [1, int(p)]
     e = [] if c.get('exponent') is None else [frac(c['exponent'])]
@@ -525,7 +525,7 @@ def magnitude_ok(defs):
         for c in d['children']:
             x = float(frac(c['exponent'])) if c.get('exponent') is not None else 1.0
             if c.get('prefix') is not None:
-                p = c['prefix']
+                p = c['prefix'].strip()
                 own += x * (SI_PREFIX[p] if p in SI_PREFIX else int(p))
             if c.get('multiplier') is not None:
                 own += math.log10(float(frac(c['multiplier'])))
@@ -571,7 +571,7 @@ def gen_family(seed, tier):
             for c in d['children']:
                 if c.get('offset') is None and rng.random() < 0.05:
                     c['offset'] = rng.choice(ZERO_OFFSETS_OTHER)
-                if c.get('prefix') is not None and c['prefix'] not in SI_PREFIX and rng.random() < 0.15:
+                if c.get('prefix') is not None and rng.random() < 0.15:
                     c['prefix'] = rng.choice([' %s ', '%s ', ' %s', '\n%s'])  % c['prefix']
         order = list(range(k))
         rng.shuffle(order)
@@ -680,7 +680,7 @@ def lexical_cases(seed):
         out.append({'kind': 'lexical-prefix',
                     'defs': [mk_def('a', [mk_child('second', p, '2')])], 'perms': [[0]]})
     for p in [' milli ', 'kilo ', ' yocto']:
-        out.append({'kind': 'lexical-prefix-name', 'oracle_only': True,
+        out.append({'kind': 'lexical-prefix-name',
                     'defs': [mk_def('a', [mk_child('second', p, '2')])], 'perms': [[0]]})
     for e in ['+2', ' 2 ', '2.', '2e0', '.5e1', '2E0']:
         out.append({'kind': 'lexical-exponent', 'oracle_only': True,
@@ -855,5 +855,5 @@ def named_prefix_with_whitespace(rec):
         and impl[1] == 'ValueError' and 'invalid literal for int()' in impl[3]
 
 
-KNOWN_PREDICATES = {'reference_to_digit_name': reference_to_digit_name,
-                    'named_prefix_with_whitespace': named_prefix_with_whitespace}
+# named_prefix_with_whitespace was repaired by the fix: commit 35c5a99; it suppresses nothing any more
+KNOWN_PREDICATES = {'reference_to_digit_name': reference_to_digit_name}
